@@ -84,6 +84,7 @@ func rulesMashAdd(c *Ctx, r *Report) {
 		return
 	}
 	r.analysed(where)
+	mark := len(r.Obs)
 	info := p.TypesInfo
 	mh := info.Defs[fd.Type.Params.List[0].Names[0]]
 	kParam := info.Defs[fd.Type.Params.List[1].Names[0]]
@@ -282,7 +283,9 @@ func rulesMashAdd(c *Ctx, r *Report) {
 		})
 	}
 	if outerBody == nil || inner == nil {
-		r.violated("CANON", where, "k-mer source", c.pos(fd.Pos()), "Add does not range over sequtil.CanonicalSubsequences(...) for each element of seqs")
+		// not two nested range statements: the same rules on the SSA form (mash_ssa.go)
+		r.rollback(mark)
+		rulesMashAddSSA(c, r)
 		return
 	}
 	seqVar := outerSeq
@@ -386,7 +389,9 @@ func rulesMashAdd(c *Ctx, r *Report) {
 		}
 	}
 	if hObj == nil {
-		r.violated("TS-HASH", where, "hash value", c.pos(inner.Pos()), "no Sum64() call in the k-mer loop")
+		// the hashing is not written out in the loop body: the same rules on the SSA form (mash_ssa.go)
+		r.rollback(mark)
+		rulesMashAddSSA(c, r)
 		return
 	}
 	okPush := false
